@@ -431,6 +431,8 @@ def _via(order, late_ack=False):
                 state._stream_update('%d NEW 0 www.c%d.example:80 SOURCE_ADDR=127.0.0.1:%d PURPOSE=USER' % (10 + i, i, PORTS[i]))
             elif code == NU:
                 state._stream_update('13 NEW 0 www.unrelated.example:80 SOURCE_ADDR=127.0.0.1:%d PURPOSE=USER' % PORTS[3])
+                # ... and one from another host that happens to use the same port number as connection 1
+                state._stream_update('15 NEW 0 www.elsewhere.example:80 SOURCE_ADDR=10.0.0.5:%d PURPOSE=USER' % PORTS[1])
             elif code in (B2, F2):
                 kind, payload = model.apply(NC + (3 if code == B2 else 5))
                 deliver(state, kind, payload)
@@ -460,6 +462,8 @@ def _via(order, late_ack=False):
                              [_NAMES[c] for c in order], o.ok, o.err, o.exc())
             if NU in done and pump.attach_lines(13) != ['ATTACHSTREAM 13 0']:
                 return R('unrelated-stream-captured-or-undecided', '%r (order %r)', pump.attach_lines(13), [_NAMES[c] for c in order])
+            if NU in done and pump.attach_lines(15) != ['ATTACHSTREAM 15 0']:
+                return R('unrelated-stream-captured-or-undecided', 'same port, other source address: %r (order %r)', pump.attach_lines(15), [_NAMES[c] for c in order])
             if F2 in done and outs[2].err != 1:
                 return R('connect-did-not-fail-although-its-circuit-failed')
             # no SOCKS connection is opened on behalf of a circuit that is not (or never gets) BUILT: its stream could only be
